@@ -128,13 +128,22 @@ theorem set_pop_returns_member_and_removes_it (s : IntSet) (h : Inv s) :
   obtain ⟨a, b, c⟩ := pop_spec h.1 hp
   exact ⟨a, ⟨b, pop_counts h.2 hp⟩, c⟩
 
-example : Inv IntSet.empty := empty_inv
+/-- a set with history (resize, dummy, earlier pop) pops the next key after the finger and keeps the rest -/
+example : Inv exampleA ∧ (match exampleA.pop with | some (.popped k s) => some (k, s.toList) | _ => none) = some (33, [2, 17, 25]) :=
+  ⟨built_inv _, by decide +kernel⟩
 
 /-- `set_merge` (`copy()`, `set(s)`, `update(s)`): all three paths (verbatim table copy, clean insertion, normal
 insertion) give the union and keep the invariant -/
 theorem set_merge_is_union (so other r : IntSet) (h : Inv so) (ho : Inv other) (hm : so.merge other = some r) :
     Inv r ∧ ∀ x, Mem r.table x ↔ aUnion (Mem so.table) (Mem other.table) x :=
   merge_spec h ho hm
+
+/-- the hypotheses hold for concrete sets with history; the model's results below are CPython's -/
+example : Inv exampleA ∧ Inv exampleB ∧
+    (exampleA.merge exampleB).map (·.toList) = some [2 ^ 61, 33, 2, 7, 40, 17, 25, -4] ∧
+    (exampleA.union exampleB).map (·.toList) = some [33, 2, 2 ^ 61, 7, 40, 17, 25, -4] ∧
+    (exampleA.copy).map (·.toList) = some [33, 2, 17, 25] :=
+  ⟨built_inv _, built_inv _, by decide +kernel, by decide +kernel, by decide +kernel⟩
 
 theorem set_copy_same_members (s r : IntSet) (h : Inv s) (hc : s.copy = some r) :
     Inv r ∧ ∀ x, Mem r.table x ↔ Mem s.table x := copy_spec h hc
@@ -153,6 +162,12 @@ theorem set_intersection_iterable_refines (so : View) (A : ASet) (ha : so.Denote
 theorem set_difference_refines (so : IntSet) (other : View) (B : ASet) (h : Inv so) (hb : other.Denotes B) (sized : Bool)
     (r : IntSet) (hd : so.difference other sized = some r) : Inv r ∧ ∀ x, Mem r.table x ↔ aDiff (Mem so.table) B x :=
   difference_spec h hb sized hd
+
+example : (interSet exampleA.view exampleB.view).map (·.toList) = some [33] ∧
+    (interIter exampleA.view [5, 25, 2, 2]).map (·.toList) = some [25, 2] ∧
+    (exampleA.difference exampleB.view true).map (·.toList) = some [17, 2, 25] ∧
+    (exampleA.difference (View.ofList [33, 40]) false).map (·.toList) = some [2, 17, 25] := by
+  refine ⟨by decide +kernel, by decide +kernel, by decide +kernel, by decide +kernel⟩
 
 /-- a modelled set, and an observed container given by its iteration order, are legitimate operands -/
 theorem set_views_denote (s : IntSet) (h : Inv s) (ks : List Int) :
